@@ -11,8 +11,19 @@ from common import ModelError, R, cfl, fl, max_rel_err
 from common import wiring_pre_build as pre_build  # noqa: E402,F401
 
 LEAN_MODULES = ["PyomaVerif.Props.C04", "PyomaVerif.Mutants.C04", "PyomaVerif.Props.WiringRun", "PyomaVerif.Props.C04C13",
-                "PyomaVerif.Props.C04C06"]
+                "PyomaVerif.Props.C04C06", "PyomaVerif.Props.C04Split"]
 THEOREMS = [
+    # the reference/roving split composed with the merging: user's datasets + ref_ind (any order) -> pre_multisetup -> every
+    # SD_est call of SD_PreGER -> merged == single-setup matrix (Props/C04Split.lean, Model/MsGather.lean); the object's data
+    # after every preprocessing step is that split (PV.C03Split.C03_data_every_step, through PV.C14.C14_invariant_multi)
+    "PV.C04Split.C04_identical_refs_rows",
+    "PV.C04Split.C04_handover",
+    "PV.C04Split.C04_identical_refs_split",
+    "PV.C04Split.C04_identical_refs_split_sd",
+    "PV.C04Split.sd_per_ne",
+    "PV.C04Split.sd_cor_ne",
+    "PV.MsGather.preMultisetupRec_ok",
+    "PV.MsGather.vstack_gather",
     # C04 o C06 (o C13): multi-setup FDD end to end (Props/C04C06.lean)
     "PV.C04C06.sdEst_rank_one_entry",
     "PV.C04C06.sdEst_superposition",
